@@ -640,6 +640,11 @@ class DynamicBayesianNetwork(DAG):
             if not any(x.variable == temp_var for x in self.cpds):
                 if all(x[1] == parents[0][1] for x in parents):
                     if parents:
+                        # The table keeps the evidence order of the copied CPD,
+                        # moved to the other time slice.
+                        evidence = [
+                            DynamicNode(var[0], 1 - var[1]) for var in cpd.variables[1:]
+                        ]
                         evidence_card = cpd.cardinality[1:]
                         new_cpd = TabularCPD(
                             temp_var,
@@ -647,8 +652,14 @@ class DynamicBayesianNetwork(DAG):
                             cpd.values.reshape(
                                 cpd.variable_card, np.prod(evidence_card)
                             ),
-                            parents,
+                            evidence,
                             evidence_card,
+                            state_names={
+                                new_var: cpd.state_names[var]
+                                for new_var, var in zip(
+                                    [temp_var] + evidence, cpd.variables
+                                )
+                            },
                         )
                     else:
                         if cpd.get_evidence():
@@ -658,13 +669,21 @@ class DynamicBayesianNetwork(DAG):
                             new_cpd = TabularCPD(
                                 temp_var,
                                 cpd.variable_card,
-                                np.reshape(initial_cpd.values, (2, -1)),
+                                np.reshape(
+                                    initial_cpd.values, (cpd.variable_card, -1)
+                                ),
+                                state_names={
+                                    temp_var: cpd.state_names[cpd.variable]
+                                },
                             )
                         else:
                             new_cpd = TabularCPD(
                                 temp_var,
                                 cpd.variable_card,
-                                np.reshape(cpd.values, (2, -1)),
+                                np.reshape(cpd.values, (cpd.variable_card, -1)),
+                                state_names={
+                                    temp_var: cpd.state_names[cpd.variable]
+                                },
                             )
                     self.add_cpds(new_cpd)
             self.check_model()
@@ -807,6 +826,10 @@ class DynamicBayesianNetwork(DAG):
                     values=cpd.get_values(),
                     evidence=new_vars[1:],
                     evidence_card=cpd.cardinality[1:],
+                    state_names={
+                        new_var: cpd.state_names[var]
+                        for new_var, var in zip(new_vars, cpd.variables)
+                    },
                 )
             )
 
